@@ -46,10 +46,11 @@ class SubProcess(zope.testrunner.feature.Feature):
             # optional fourth field, see spawn_layer_in_subprocess
             counts.append(len(self.runner.skipped))
         print(*counts, file=self.original_stderr)
+        # One line per name, whatever line breaks the name contains.
         for test, exc_info in self.runner.failures:
-            print(' '.join(str(test).strip().split('\n')),
+            print(' '.join(str(test).strip().splitlines()),
                   file=self.original_stderr)
         for test, exc_info in self.runner.errors:
-            print(' '.join(str(test).strip().split('\n')),
+            print(' '.join(str(test).strip().splitlines()),
                   file=self.original_stderr)
         self.original_stderr.flush()
